@@ -260,17 +260,24 @@ def run_invalid(ctx):
         except U.BadPattern:
             model_ok = False
         assert model_ok == (kind == 'valid'), (bad, kind)
+        from clastic import Application
+        # every way a Route is created from a pattern: the constructor, and the (pattern, endpoint) shorthand of an
+        # application's route list and of add()
+        ways = [('Route', lambda mode: Route(bad, lambda: None, slash_mode=mode)),
+                ('Application([(pattern, endpoint)])', lambda mode: Application([(bad, lambda: None)], slash_mode=mode)),
+                ('add((pattern, endpoint))', lambda mode: Application(slash_mode=mode).add((bad, lambda: None)))]
         for mode in U.MODES:
-            try:
-                Route(bad, lambda: None, slash_mode=mode)
-                got = True
-            except InvalidPattern:
-                got = False
-            except Exception as e:
-                ctx.record(_V('invalid-pattern-other-exception', '%r (%s): %r instead of InvalidPattern' % (bad, kind, e), case), 'invalid')
-                continue
-            if got != model_ok:
-                ctx.record(_V('invalid-pattern-' + kind, 'Route(%r) %s, expected %s' % (bad, 'accepted' if got else 'rejected', case['expect']), case), 'invalid')
+            for wname, way in (ways if i % 3 == 0 or mode == U.MODES[0] else ways[:1]):
+                try:
+                    way(mode)
+                    got = True
+                except InvalidPattern:
+                    got = False
+                except Exception as e:
+                    ctx.record(_V('invalid-pattern-other-exception', '%s with %r (%s): %r instead of InvalidPattern' % (wname, bad, kind, e), case), 'invalid')
+                    continue
+                if got != model_ok:
+                    ctx.record(_V('invalid-pattern-' + kind, '%s with %r %s, expected %s' % (wname, bad, 'accepted' if got else 'rejected', case['expect']), case), 'invalid')
         ctx.event('invalid-' + kind)
         if kind != 'valid':
             ctx.nt(case, sample=False)
